@@ -360,6 +360,8 @@ def oracle_e2e(ctx) -> None:
         cols = rng.sample(kinds, rng.choice([1, 2, 3]))
         if t % 4 == 0:
             cols = ["binary", rng.choice([k for k in kinds if k != "binary"])]     # a column without bounds next to one with bounds
+        elif t % 4 == 1:
+            cols = [rng.choice(["date", "timestamp"]), rng.choice([k for k in kinds if k not in ("date", "timestamp")])]
         fields = [{"id": i + 1, "name": f"c{i}", "type": k, "required": False} for i, k in enumerate(cols)]
         schema = Schema(schema_id=1, fields=fields)
         path = os.path.join(ctx.scratch, f"t{t}")
@@ -380,6 +382,22 @@ def oracle_e2e(ctx) -> None:
                 j = (i + 1) % len(cols)
                 if j != i:
                     directed.append({f"c{i}": (opn, True), f"c{j}": (">=", rng.choice(E2E_DOMAIN[cols[j]]))})
+        # directed: every comparison of a date column with a datetime at / around each day the files hold (and of a timestamp
+        # column with the dates of its values): the cross-kind comparisons pyarrow evaluates as "date = midnight"
+        import datetime as _dtm2
+        for i, kind in enumerate(cols):
+            if kind not in ("date", "timestamp"):
+                continue
+            present = sorted({r[f"c{i}"] for f in files for r in f if r.get(f"c{i}") is not None})[:4]
+            for v in present:
+                if kind == "date":
+                    lits = [_dtm2.datetime(v.year, v.month, v.day, 12, 0), _dtm2.datetime(v.year, v.month, v.day),
+                            _dtm2.datetime(v.year, v.month, v.day) + _dtm2.timedelta(days=1, microseconds=1)]
+                else:
+                    lits = [v.date(), v.date() + _dtm2.timedelta(days=1)]
+                for lit in lits:
+                    for opn in ("==", "!=", "<", "<=", ">", ">="):
+                        directed.append({f"c{i}": (opn, lit)})
         nrand = 10 if ctx.tier == "quick" else 30
         for fi in range(nrand + len(directed)):
             flt = {}
@@ -389,7 +407,22 @@ def oracle_e2e(ctx) -> None:
                 i = rng.randrange(len(cols))
                 dom = E2E_DOMAIN[cols[i]]
                 r = rng.random()
-                if r < 0.55:
+                if cols[i] in ("date", "timestamp") and rng.random() < 0.4:
+                    # a literal of the OTHER temporal kind (pyarrow compares a date with a timestamp as midnight of that day):
+                    # datetimes at / just around the days present in a date column, dates for a timestamp column
+                    import datetime as _dtm
+                    if cols[i] == "date":
+                        days = [v for v in dom if isinstance(v, _dtm.date)] or [_dtm.date(2024, 1, 2)]
+                        d0 = rng.choice(days)
+                        lit = rng.choice([_dtm.datetime(d0.year, d0.month, d0.day, 12, 0), _dtm.datetime(d0.year, d0.month, d0.day),
+                                          _dtm.datetime(d0.year, d0.month, d0.day, 23, 59, 59, 999999),
+                                          _dtm.datetime(d0.year, d0.month, d0.day) + _dtm.timedelta(days=1, microseconds=1)])
+                    else:
+                        tss = [v for v in dom if isinstance(v, _dtm.datetime)] or [_dtm.datetime(2024, 1, 2, 3, 4)]
+                        t0_ = rng.choice(tss)
+                        lit = rng.choice([t0_.date(), t0_.date() + _dtm.timedelta(days=1)])
+                    flt[f"c{i}"] = (rng.choice(["==", "!=", "<", "<=", ">", ">="]), lit)
+                elif r < 0.55:
                     flt[f"c{i}"] = (rng.choice(["==", "!=", "<", "<=", ">", ">="]), rng.choice(dom + LITERALS[:21] if cols[i] in ("long", "int", "double", "float") else dom))
                 elif r < 0.8:
                     flt[f"c{i}"] = (rng.choice(["in", "not_in"]), [rng.choice(dom) for _ in range(rng.choice([0, 1, 2]))])
